@@ -4,8 +4,11 @@ Both are frozen dataclasses; every `with_*` goes through `dataclasses.replace`, 
 new record sharing the *references* held by the old one.  The only references with mutable
 state that the code touches are simulator objects (`random_seed` attribute; selene's
 `_get_component_config` prefers `component.random_seed` over the `random_seed` argument).
-State = a heap of simulator objects + the list of instances created so far + the log of
-`run_shots` calls.  `step fixed` is the code after the repair of D10 (`with_seed` seeds a *copy*
+The other components an instance references (runtime, error model, event hook) are objects of
+the same kind — selene reads their `random_seed` too — so they live on a second heap (`comps`:
+the `random_seed` attribute of each component object; the repaired code never writes it).
+State = a heap of simulator objects + a heap of component objects + the list of instances
+created so far + the log of `run_shots` calls.  `step fixed` is the code after the repair of D10 (`with_seed` seeds a *copy*
 of the simulator) when `fixed = true` and the original code (`with_seed` writes
 `random_seed` of the shared object) when `fixed = false`.
 
@@ -109,6 +112,7 @@ def buildArgs (b : Builder) : BuildArgs :=
 
 inductive Op where
   | newSim (k : SimKind) (seed : Option Nat)   -- the user constructs a simulator object
+  | newComp (seed : Option Nat)                -- the user constructs a runtime / error model / event hook
   | derive (i : Nat) (d : Deriv)               -- `insts[i].with_…(…)`, result appended
   | run (i : Nat)                              -- `insts[i].run()`
   | bderive (i : Nat) (d : BDeriv)             -- `builders[i].with_…(…)`, result appended
@@ -120,8 +124,11 @@ structure RunArgs where
   simKind : SimKind
   simSeed : Option Nat          -- `simulator.random_seed` at the time of the call
   runtime : Nat
+  runtimeSeed : Option Nat      -- `runtime.random_seed` at the time of the call
   errorModel : Nat
+  errorModelSeed : Option Nat   -- `error_model.random_seed` at the time of the call
   eventHook : Nat
+  eventHookSeed : Option Nat
   nQubits : Nat
   shots : Nat
   verbose : Bool
@@ -141,20 +148,24 @@ def RunArgs.effSimSeed (a : RunArgs) : Option Nat :=
 
 structure State where
   heap : List Sim
+  /-- component objects (runtimes, error models, event hooks): their `random_seed` attribute;
+      index 0 stands for a default-constructed object -/
+  comps : List (Option Nat)
   insts : List Inst
   log : List (Nat × RunArgs)
   builders : List Builder
   blog : List (Nat × BuildArgs)
   deriving Repr
 
-def argsOf (heap : List Sim) (c : Inst) : Option RunArgs :=
-  match heap[c.sim]? with
-  | none => none
-  | some s => some
-    { simKind := s.kind, simSeed := s.seed, runtime := c.runtime, errorModel := c.errorModel,
-      eventHook := c.eventHook, nQubits := c.nQubits, shots := c.shots, verbose := c.verbose,
+def argsOf (heap : List Sim) (comps : List (Option Nat)) (c : Inst) : Option RunArgs :=
+  match heap[c.sim]?, comps[c.runtime]?, comps[c.errorModel]?, comps[c.eventHook]? with
+  | some s, some rs, some es, some hs => some
+    { simKind := s.kind, simSeed := s.seed, runtime := c.runtime, runtimeSeed := rs,
+      errorModel := c.errorModel, errorModelSeed := es, eventHook := c.eventHook, eventHookSeed := hs,
+      nQubits := c.nQubits, shots := c.shots, verbose := c.verbose,
       timeout := c.timeout, seed := c.seed, shotOffset := c.shotOffset,
       shotIncrement := c.shotIncrement, nProcesses := c.nProcesses, progressBar := c.progressBar }
+  | _, _, _, _ => none
 
 /-- `_Options()` defaults; the simulator is the fresh object at heap index `sim` -/
 def defaultInst (n sim : Nat) (origin : Option Nat) : Inst :=
@@ -166,10 +177,11 @@ def defaultInst (n sim : Nat) (origin : Option Nat) : Inst :=
 def view (s : State) (i : Nat) : Option RunArgs :=
   match s.insts[i]? with
   | none => none
-  | some c => argsOf s.heap c
+  | some c => argsOf s.heap s.comps c
 
 /-- one derivation; returns the new heap and the new instance. `none`: dangling reference. -/
-def derive (fixed : Bool) (heap : List Sim) (c : Inst) : Deriv → Option (List Sim × Inst)
+def derive (fixed : Bool) (heap : List Sim) (comps : List (Option Nat)) (c : Inst) :
+    Deriv → Option (List Sim × Inst)
   | .seed v =>
     match heap[c.sim]? with
     | none => none
@@ -184,9 +196,9 @@ def derive (fixed : Bool) (heap : List Sim) (c : Inst) : Deriv → Option (List 
   | .verbose b => some (heap, { c with verbose := b })
   | .timeout t => some (heap, { c with timeout := t })
   | .progressBar b => some (heap, { c with progressBar := b })
-  | .runtime r => some (heap, { c with runtime := r })
-  | .errorModel e => some (heap, { c with errorModel := e })
-  | .eventHook h => some (heap, { c with eventHook := h })
+  | .runtime r => if r < comps.length then some (heap, { c with runtime := r }) else none
+  | .errorModel e => if e < comps.length then some (heap, { c with errorModel := e }) else none
+  | .eventHook h => if h < comps.length then some (heap, { c with eventHook := h }) else none
   | .simulator sid => if sid < heap.length then some (heap, { c with sim := sid }) else none
   | .statevector => some (heap ++ [⟨.quest, none⟩], { c with sim := heap.length })
   | .coinflip => some (heap ++ [⟨.coinflip, none⟩], { c with sim := heap.length })
@@ -194,11 +206,12 @@ def derive (fixed : Bool) (heap : List Sim) (c : Inst) : Deriv → Option (List 
 
 def step (fixed : Bool) (s : State) : Op → Option State
   | .newSim k sd => some { s with heap := s.heap ++ [⟨k, sd⟩] }
+  | .newComp sd => some { s with comps := s.comps ++ [sd] }
   | .derive i d =>
     match s.insts[i]? with
     | none => none
     | some c =>
-      match derive fixed s.heap c d with
+      match derive fixed s.heap s.comps c d with
       | none => none
       | some (h, c') => some { s with heap := h, insts := s.insts ++ [c'] }
   | .run i =>
@@ -240,6 +253,7 @@ def runOps (fixed : Bool) : State → List Op → Option State
     object; default runtime/error model/event hook are written `0`) and a fresh `EmulatorBuilder()` -/
 def initial (n : Nat) : State :=
   { heap := [⟨.quest, none⟩]
+    comps := [none]
     insts := [defaultInst n 0 none]
     log := []
     builders := [⟨none, none, false, none⟩]
